@@ -341,6 +341,9 @@ func (c *Ctx) boundsDebug(name string) {
 		return
 	}
 	a := getAn(fn)
+	if os.Getenv("BDEBUG_NARROW") != "" {
+		narrowMode = true
+	}
 	fmt.Println("invariants:")
 	for hb, fs := range a.invAt {
 		for _, f := range fs {
